@@ -447,7 +447,10 @@ def check(ctx, rule, fname, only=None):
         fn = r["fn"]
         c = cur.get(label)
         if fn not in ctx.facts.bodies() or c is None or c["arms"] is None:
-            ctx.anchor_lost(rule, "%s (%s) not found" % (label, fn))
+            # the audited algorithm is gone (replaced or renamed): what was audited no longer describes the tree
+            ctx.violation(rule, "%s:replaced" % label, "%s no longer exists (or no longer has the audited shape): the algorithm audited "
+                          "under this name was replaced; the replacement has to be audited against the property before it can be "
+                          "accepted" % fn, None)
             continue
         ctx.fn(fn)
         loc = ctx.facts.bodies()[fn]["loc"]
